@@ -193,14 +193,19 @@ func debitMonitor(w *world.World) chainsim.Monitor {
 				// the called contract's own wallet
 			default:
 				ok := false
+				why := "no-signed-transfer"
 				for _, st := range sts {
-					if st.ClientID == id && uint64(st.Amount) == lost && st.VerifySignature(true) == nil {
-						ok = true
-						s.Tag("debit-by-valid-signed-transfer")
+					if st.ClientID == id && uint64(st.Amount) == lost {
+						if st.VerifySignature(true) == nil {
+							ok = true
+							s.Tag("debit-by-valid-signed-transfer")
+						} else {
+							why = "signed-transfer-with-invalid-signature"
+						}
 					}
 				}
 				if !ok {
-					v("C04:third-party-debited:"+cls, fmt.Sprintf("account %s lost %d in a transaction of %s to %s", id, lost, s.Txn.ClientID, s.Txn.ToClientID))
+					v("C04:third-party-debited:"+cls+":"+why, fmt.Sprintf("account %s lost %d in a transaction of %s to %s (%s)", id, lost, s.Txn.ClientID, s.Txn.ToClientID, why))
 				}
 			}
 		}
